@@ -61,9 +61,8 @@ func c04cfg(name string) (*vHistCfg, int, int) {
 		caches: []int{0, 10000}, fast: []bool{false, true}, thresh: []int{0, 101}, auditOld: true, refHash: true}
 	maxV, maxW := 3, 1
 	if vTier() == "thorough" {
-		maxV, maxW = 4, 2
-		cfg.nKeys = 3
-		cfg.thresh = []int{0, 101, 150, 250}
+		maxV, maxW = 4, 1
+		cfg.thresh = []int{0, 101, 250}
 	}
 	return cfg, maxV, maxW
 }
@@ -210,9 +209,7 @@ func C14_History() {
 		caches: []int{10000}, fast: []bool{false, true}, thresh: []int{0}, initVer: []uint64{0, 5},
 		perStep: func(h *vHist) { h.checkVersions("step") }}
 	if vTier() == "thorough" {
-		cfg.maxOps = 6
 		cfg.initVer = []uint64{0, 1, 5, 4294967299}
-		cfg.caches = []int{0, 10000}
 	}
 	h := vStartHist(cfg)
 	h.checkVersions("start")
